@@ -55,18 +55,42 @@ def cfgOf (name : Name) (cfg : Cfg Val) : Option (List (Name × Val)) :=
 def givenFor (key : Name) (classVal : Option Val) (items : List (Name × Val)) : Option Val :=
   items.foldl (fun acc kv => if kv.1 = key then some kv.2 else acc) classVal
 
-/-- kinds of erroneous configuration named in the statement, for a parameter that has its own datatype -/
-inductive ParamOffence (ops : Ops DT Val) (pd : ParamDesc DT Val) (dt0 : DT) (items : List (Name × Val)) : Prop
+/-- kinds of erroneous configuration named in the statement, for a parameter which starts from datatype `dt0`
+and default `dflt` -/
+inductive ParamOffence (ops : Ops DT Val) (pd : ParamDesc DT Val) (dt0 : DT) (dflt : Option Val)
+    (items : List (Name × Val)) : Prop
   /-- unknown parameter property, or property value of the wrong type -/
-  | badProp : hasBadProp ops dt0 items = true → ParamOffence ops pd dt0 items
+  | badProp : hasBadProp ops dt0 items = true → ParamOffence ops pd dt0 dflt items
   /-- a value of the wrong type (for the datatype after the overrides) -/
   | badValue (dt' : DT) (x : Val) : dtAfter ops dt0 items = some dt' →
-      (givenFor "value" pd.value items = some x ∨ givenFor "default" pd.default items = some x) →
-      ops.convert dt' x = none → ParamOffence ops pd dt0 items
+      (givenFor "value" pd.value items = some x ∨ givenFor "default" dflt items = some x) →
+      ops.convert dt' x = none → ParamOffence ops pd dt0 dflt items
   /-- inverted limits after the overrides -/
-  | inverted (dt' : DT) : dtAfter ops dt0 items = some dt' → ops.checkDT dt' = false → ParamOffence ops pd dt0 items
+  | inverted (dt' : DT) : dtAfter ops dt0 items = some dt' → ops.checkDT dt' = false →
+      ParamOffence ops pd dt0 dflt items
   /-- required value missing -/
-  | needsCfg : pd.needscfg = true → givenFor "value" pd.value items = none → ParamOffence ops pd dt0 items
+  | needsCfg : pd.needscfg = true → givenFor "value" pd.value items = none → ParamOffence ops pd dt0 dflt items
+
+/-- what a parameter starts from before its own cfg is applied: the datatype and default of the class; for a
+derived limit `<base>_min/_max/_limits`: the datatype derived from the base parameter's datatype AFTER the
+base's overrides, and the corresponding limit of it as default -/
+def startOf (ops : Ops DT Val) (c : ClassDesc DT Val) (cfg : Cfg Val) (pd : ParamDesc DT Val) :
+    Option (DT × Option Val) :=
+  match pd.dt with
+  | some dt => some (dt, pd.default)
+  | none =>
+    match pd.limit with
+    | none => none
+    | some k =>
+      match c.params.find? (fun b => b.name == pd.base) with
+      | none => none
+      | some b =>
+        match b.dt with
+        | none => none
+        | some bdt0 =>
+          match dtAfter ops bdt0 ((cfgOf b.name cfg).getD []) with
+          | some bdt' => some (ops.limitDT k bdt', some (ops.limitDefault k bdt'))
+          | none => none
 
 /-- erroneous configuration of one module -/
 inductive Offence (ops : Ops DT Val) (c : ClassDesc DT Val) (cfg : Cfg Val) : Prop
@@ -74,15 +98,21 @@ inductive Offence (ops : Ops DT Val) (c : ClassDesc DT Val) (cfg : Cfg Val) : Pr
   | unknownName (k : Name) : k ∈ cfg.map (·.1) → k ∉ knownNames c → Offence ops c cfg
   /-- module property value of the wrong type -/
   | badModProp (d : ModPropDesc Val) (v : Val) : d ∈ c.modProps →
-      (lookup d.name cfg = some (.prop (.bare v)) ∨ lookup d.name cfg = some (.prop (.dict (some v)))) →
+      (lookup d.name cfg = some (.prop (.bare v)) ∨ lookup d.name cfg = some (.prop (.dict (some v))) ∨
+        ∃ items, lookup d.name cfg = some (.acc items) ∧ lookup "value" items = some v) →
       d.validate v = none → Offence ops c cfg
+  /-- a module property given as a dict (`Param(value, key=…)`) with a key other than `value`: a property has no
+  properties, the key is an unknown property name -/
+  | propExtraKey (d : ModPropDesc Val) (items : List (Name × Val)) (k : Name) : d ∈ c.modProps →
+      lookup d.name cfg = some (.acc items) → k ∈ items.map (·.1) → k ≠ "value" → Offence ops c cfg
   /-- mandatory property missing -/
   | mandatory (d : ModPropDesc Val) : d ∈ c.modProps → d.mandatory = true → d.classValue = none →
       lookup d.name cfg = none → Offence ops c cfg
-  /-- something wrong in the cfg of a parameter (own datatype, not a derived limit) -/
-  | param (pd : ParamDesc DT Val) (dt0 : DT) (items : List (Name × Val)) : pd ∈ c.params → pd.dt = some dt0 →
-      pd.limit = none → (cfgOf pd.name cfg = some items ∨ (lookup pd.name cfg = none ∧ items = [])) →
-      ParamOffence ops pd dt0 items → Offence ops c cfg
+  /-- something wrong in the cfg of a parameter (own datatype, or derived limit) -/
+  | param (pd : ParamDesc DT Val) (dt0 : DT) (dflt : Option Val) (items : List (Name × Val)) : pd ∈ c.params →
+      startOf ops c cfg pd = some (dt0, dflt) →
+      (lookup pd.name cfg = some (.acc items) ∨ (lookup pd.name cfg = none ∧ items = [])) →
+      ParamOffence ops pd dt0 dflt items → Offence ops c cfg
 
 /-! ## what is observed on the implementation -/
 
@@ -122,7 +152,8 @@ def optB {α : Type} (eq : α → α → Bool) : Option α → Option α → Boo
   | _, _ => false
 
 /-- one configured parameter (own datatype) shows its configuration on the instance -/
-def paramAppliedB (ops : Ops DT Val) (g : Glue DT Val) (pd : ParamDesc DT Val) (dt0 : DT) (items : List (Name × Val))
+def paramAppliedB (ops : Ops DT Val) (g : Glue DT Val) (pd : ParamDesc DT Val) (dt0 : DT) (dflt : Option Val)
+    (items : List (Name × Val))
     (o : ObsParam DT Val) : Bool :=
   match dtAfter ops dt0 items with
   | none => false
@@ -130,7 +161,7 @@ def paramAppliedB (ops : Ops DT Val) (g : Glue DT Val) (pd : ParamDesc DT Val) (
     -- start value = configured value converted by the datatype after the overrides
     (match givenFor "value" pd.value items with
      | some x => optB g.beqVal o.value (ops.convert dt' x)
-     | none => match givenFor "default" pd.default items with
+     | none => match givenFor "default" dflt items with
        | some d => optB g.beqVal o.value (ops.convert dt' d)
        | none => true) &&
     -- configured own properties
@@ -152,12 +183,12 @@ def paramAppliedB (ops : Ops DT Val) (g : Glue DT Val) (pd : ParamDesc DT Val) (
 def appliedB (ops : Ops DT Val) (g : Glue DT Val) (c : ClassDesc DT Val) (cfg : Cfg Val) (o : ObsModule DT Val) : Bool :=
   !o.registered ||
   c.params.all fun pd =>
-    match pd.dt, pd.limit with
-    | some dt0, none =>
+    match startOf ops c cfg pd with
+    | some (dt0, dflt) =>
       (match findObs pd.name o.params with
-       | some op => paramAppliedB ops g pd dt0 ((cfgOf pd.name cfg).getD []) op
+       | some op => paramAppliedB ops g pd dt0 dflt ((cfgOf pd.name cfg).getD []) op
        | none => false)
-    | _, _ => true
+    | none => true
 
 /-! ## clause 2: writes exactly once, before the first poll -/
 
@@ -205,12 +236,13 @@ def writesB (ops : Ops DT Val) (g : Glue DT Val) (c : ClassDesc DT Val) (cfg : C
 
 /-! ## clause 3: rejected as a whole -/
 
-def paramOffenceB (ops : Ops DT Val) (pd : ParamDesc DT Val) (dt0 : DT) (items : List (Name × Val)) : Bool :=
+def paramOffenceB (ops : Ops DT Val) (pd : ParamDesc DT Val) (dt0 : DT) (dflt : Option Val)
+    (items : List (Name × Val)) : Bool :=
   hasBadProp ops dt0 items ||
   (match dtAfter ops dt0 items with
    | some dt' =>
      (match givenFor "value" pd.value items with | some x => (ops.convert dt' x).isNone | none => false) ||
-     (match givenFor "default" pd.default items with | some x => (ops.convert dt' x).isNone | none => false) ||
+     (match givenFor "default" dflt items with | some x => (ops.convert dt' x).isNone | none => false) ||
      !ops.checkDT dt'
    | none => false) ||
   (pd.needscfg && (givenFor "value" pd.value items).isNone)
@@ -221,36 +253,18 @@ def offendingB (ops : Ops DT Val) (c : ClassDesc DT Val) (cfg : Cfg Val) : Bool 
     match lookup d.name cfg with
     | some (.prop (.bare v)) => (d.validate v).isNone
     | some (.prop (.dict (some v))) => (d.validate v).isNone
+    | some (.acc items) => (items.any fun kv => kv.1 != "value") ||
+        (match lookup "value" items with | some v => (d.validate v).isNone | none => false)
     | none => d.mandatory && d.classValue.isNone
     | _ => false) ||
   (c.params.any fun pd =>
-    match pd.dt, pd.limit with
-    | some dt0, none =>
+    match startOf ops c cfg pd with
+    | some (dt0, dflt) =>
       (match lookup pd.name cfg with
-       | some (.acc items) => paramOffenceB ops pd dt0 items
-       | none => paramOffenceB ops pd dt0 []
+       | some (.acc items) => paramOffenceB ops pd dt0 dflt items
+       | none => paramOffenceB ops pd dt0 dflt []
        | _ => false)
-    | _, _ => false)
-
-/-- the same kinds of error in the cfg of a derived `Limit` parameter (`<base>_min/_max/_limits` without own datatype):
-its datatype is the one derived from the base parameter's datatype after the base's overrides -/
-def limitOffendingB (ops : Ops DT Val) (c : ClassDesc DT Val) (cfg : Cfg Val) : Bool :=
-  c.params.any fun pd =>
-    match pd.dt, pd.limit with
-    | none, some k =>
-      (match c.params.find? (fun b => b.name == pd.base) with
-       | some b =>
-         (match b.dt with
-          | some bdt0 =>
-            (match dtAfter ops bdt0 ((cfgOf b.name cfg).getD []), lookup pd.name cfg with
-             | some bdt', some (.acc items) => paramOffenceB ops pd (ops.limitDT k bdt') items
-             | _, _ => false)
-          | none => false)
-       | none => false)
-    | _, _ => false
-
-def rejectedLimitB (ops : Ops DT Val) (c : ClassDesc DT Val) (cfg : Cfg Val) (o : ObsModule DT Val) : Bool :=
-  !limitOffendingB ops c cfg || (!o.registered && !o.errors.isEmpty)
+    | none => false)
 
 /-- an erroneous configuration registers nothing and is reported -/
 def rejectedB (ops : Ops DT Val) (c : ClassDesc DT Val) (cfg : Cfg Val) (o : ObsModule DT Val) : Bool :=
@@ -269,7 +283,7 @@ def outsideB (c : ClassDesc DT Val) (cfg : Cfg Val) : Bool :=
 
 /-- a configuration without any of the listed errors is applied, not rejected -/
 def acceptedB (ops : Ops DT Val) (c : ClassDesc DT Val) (cfg : Cfg Val) (o : ObsModule DT Val) : Bool :=
-  offendingB ops c cfg || limitOffendingB ops c cfg || outsideB c cfg || o.registered
+  offendingB ops c cfg || outsideB c cfg || o.registered
 
 /-- never half applied: a module is registered xor reported -/
 def wholeB (o : ObsModule DT Val) : Bool := o.registered != !o.errors.isEmpty
